@@ -111,5 +111,10 @@ def handle (ts : List String) : String :=
       let h := (ox == ["alive"]) && decls.all fun d =>
         -- complete frames only are scripted; a connection cut mid-burst or with a transport fault is not `good`
         SpecSrv.connOK d.good (completeFor es d.id) d.descs (implOut d.id) (implServed d.id)
+      let logIds : List Nat := olog.filterMap fun t => (t.splitOn ":").head?.map String.toNat!
+      let total (i : Nat) : Nat := match decls.find? (·.id == i) with
+        | some d => (SpecSrv.refServed d.descs).length
+        | none => 0
+      let h := h && (!(ts.contains "F1") || SpecSrv.fairOK total (decls.map (·.id)) logIds)
       "M" ++ m ++ " | H " ++ (if h then "1" else "0")
 end DriverSrv
